@@ -26,10 +26,10 @@ func checkC14(c *km.Ctx) {
 	r.NotDecided = []string{"the quantitative bound under load (golang.org/x/time/rate)", "timing as such"}
 	r.Assume = []string{"rate.Limiter.Allow consumes a token atomically", "sync.Mutex provides mutual exclusion", "go/types + go/ssa model the source faithfully"}
 
-	r.Rule("R-C14-1", "every call of checkUserPassword is dominated by checkPasswordAttemptLimit == nil; that function returns nil only on Allow() == true and answers 429 otherwise", 4)
-	r.Rule("R-C14-2", "the global limiter is constructed once (outside tests) from the rate and burst configuration fields, after clamps burst >= 10 and rate >= 1", 3)
-	r.Rule("R-C14-3", "TOTP spacing: lookup, test and update of lastCheckTime in one uninterrupted critical section; early return when less than a constant >= 2 s elapsed; spacing and lock-out tests precede any decryption / validation", 5)
-	r.Rule("R-C14-4", "lock-out bookkeeping is effective: no computed time is discarded; a failure increments the counter, every fifth failure sets a future lock-out time, and the record is written back under the mutex on every exit after validation", 5)
+	r.Rule("R-C14-1", "every call of checkUserPassword is dominated by checkPasswordAttemptLimit == nil; that function returns nil only on Allow() == true and answers 429 otherwise", 2)
+	r.Rule("R-C14-2", "the global limiter is constructed once (outside tests) from the rate and burst configuration fields, after clamps burst >= 10 and rate >= 1", 1)
+	r.Rule("R-C14-3", "TOTP spacing: lookup, test and update of lastCheckTime in one uninterrupted critical section; early return when less than a constant >= 2 s elapsed; spacing and lock-out tests precede any decryption / validation", 2)
+	r.Rule("R-C14-4", "lock-out bookkeeping is effective: no computed time is discarded; a failure increments the counter, every fifth failure sets a future lock-out time, and the record is written back under the mutex on every exit after validation", 3)
 
 	// ---------- R-C14-1
 	lim := c.MustFunc("R-C14-1", "cmd/keymasterd", "(*RuntimeState).checkPasswordAttemptLimit")
